@@ -59,8 +59,8 @@ package mangos
 //@   ensures unchanged(m.Body, m.Header)
 //@
 //@ interface ProtocolPipe.RecvMsg
-//@   ensures result != nil ==> arrof(result.Header) != arrof(result.Body)
+//@   ensures result != nil ==> arrof(result.Header) != arrof(result.Body) && len(result.Header) == 0
 //@
 //@ interface TranPipe.Recv
-//@   ensures isnil(result1) ==> result0 != nil && arrof(result0.Header) != arrof(result0.Body)
+//@   ensures isnil(result1) ==> result0 != nil && arrof(result0.Header) != arrof(result0.Body) && len(result0.Header) == 0
 //@   ensures !isnil(result1) ==> result0 == nil
